@@ -50,7 +50,11 @@ namespace ref
    };
 
    // action kinds per registry id (mirrors the constexpr table compiled into the real run)
-   enum akind : int { A_NONE = 0, A_APPLY = 1, A_APPLY0 = 2, A_VETO = 3, A_VETO0 = 4, A_THROW = 5, A_THROW_ALIEN = 6 };
+   enum akind : int { A_NONE = 0, A_APPLY = 1, A_APPLY0 = 2, A_VETO = 3, A_VETO0 = 4, A_THROW = 5, A_THROW_ALIEN = 6,
+                      // actions with a match(): they wrap the rule they are attached to (C13)
+                      A_CHANGE_STATE = 7, A_CHANGE_STATES = 8, A_CHANGE_ACTION = 9, A_CHANGE_ACTION_AND_STATE = 10, A_CHANGE_CONTROL = 11, A_ENABLE_ACTION = 12, A_DISABLE_ACTION = 13 };
+
+   inline int state_type_of( int vid ) { return 1 + vid % 3; }   // which mon::st< N > an action-based state switch on rule vid creates
 
    // deterministic predicates shared by the model and the real actions
    inline bool veto_pred( int vid, std::size_t b, std::size_t e, unsigned salt ) { return ( ( unsigned( vid ) * 2654435761u + unsigned( b ) * 40503u + unsigned( e ) * 9176u + salt ) >> 7 ) % 3 == 0; }
@@ -98,7 +102,8 @@ namespace ref
    struct interp
    {
       const node* n = nullptr;
-      const int* akinds = nullptr;   // per registry id
+      const int* akinds = nullptr;   // per registry id (action family A)
+      const int* akinds_b = nullptr; // per registry id (action family B)
       unsigned salt = 0;
       int eolpol = 3;                // 0 lf, 1 cr, 2 crlf, 3 lf_crlf, 4 cr_crlf
       std::string_view in;
@@ -167,11 +172,56 @@ namespace ref
          return r;
       }
 
+      int kind_in( int vid, int fam ) const
+      {
+         const int* t = fam ? akinds_b : akinds;
+         return ( t && vid >= 0 ) ? t[ vid ] : A_NONE;
+      }
+
+      // a visible rule: switches attached through its action's match() wrap the body; then its own action runs
+      outcome visible( const node& x, std::size_t p, std::size_t e, const ctx& c )
+      {
+         const int k = kind_in( x.vid, c.fam );
+         ctx c2 = c;
+         int scope_idx = -1;
+         bool own_action_in_new_family = false;
+         if( k == A_CHANGE_STATE || k == A_CHANGE_STATES || k == A_CHANGE_ACTION_AND_STATE ) {
+            scope_idx = int( evs.size() );
+            evs.push_back( { E_SCOPE, state_type_of( x.vid ), p, p, depth, c.la > 0, c.act, c.fam, c.cfam, c.scope, false } );
+            c2.scope = scope_idx;
+         }
+         if( k == A_CHANGE_ACTION || k == A_CHANGE_ACTION_AND_STATE ) { c2.fam = 1; own_action_in_new_family = true; }
+         if( k == A_CHANGE_CONTROL ) c2.cfam = 1;
+         if( k == A_ENABLE_ACTION ) c2.act = true;
+         if( k == A_DISABLE_ACTION ) c2.act = false;
+         const std::size_t idx = evs.size();
+         evs.push_back( { E_VISIT, x.vid, p, p, depth, c.la > 0, c2.act, c2.fam, c2.cfam, c2.scope, false } );
+         ++depth;
+         outcome r = ev( x.kids[ 0 ], p, e, c2 );
+         --depth;
+         if( r.st != OK ) return r;
+         evs[ idx ].e = r.end;
+         if( own_action_in_new_family ) {
+            // the rule is re-entered with the new action family: its own action comes from that family
+            outcome a = run_action( x.vid, p, r.end, c2 );
+            if( a.st != OK ) return a;
+         }
+         else if( k < A_CHANGE_STATE ) {
+            outcome a = run_action( x.vid, p, r.end, c2 );
+            if( a.st != OK ) return a;
+         }
+         if( scope_idx >= 0 ) {
+            evs[ scope_idx ].e = r.end;
+            evs[ scope_idx ].vetoed = !c.act;   // "vetoed" reused: success() is only delivered when actions are enabled
+         }
+         return r;
+      }
+
       // after a visible node matched [b,e): run its attached action (if any)
       outcome run_action( int vid, std::size_t b, std::size_t e, const ctx& c )
       {
-         const int k = ( akinds && vid >= 0 ) ? akinds[ vid ] : A_NONE;
-         if( k == A_NONE || !c.act ) return ok( e );
+         const int k = kind_in( vid, c.fam );
+         if( k == A_NONE || k >= A_CHANGE_STATE || !c.act ) return ok( e );
          event a{ E_ACT, vid, b, e, depth, c.la > 0, c.act, c.fam, c.cfam, c.scope, false };
          if( k == A_VETO || k == A_VETO0 ) {
             if( veto_pred( vid, b, e, salt ) ) return fail( b );
@@ -402,31 +452,12 @@ namespace ref
                }
                return r;
             }
-            case VIS: {
-               const std::size_t idx = evs.size();
-               evs.push_back( { E_VISIT, x.vid, p, p, depth, c.la > 0, c.act, c.fam, c.cfam, c.scope, false } );
-               ++depth;
-               outcome r = ev( x.kids[ 0 ], p, e, c );
-               --depth;
-               if( r.st != OK ) return r;
-               evs[ idx ].e = r.end;
-               outcome a = run_action( x.vid, p, r.end, c );
-               if( a.st != OK ) return a;
-               return r;
-            }
+            case VIS: return visible( x, p, e, c );
             case NAMED: {
                const auto key = std::make_pair( std::make_pair( id, p ), e );
                if( !stack.insert( key ).second ) { loop = true; return { LOOP, p }; }
-               const std::size_t idx = evs.size();
-               evs.push_back( { E_VISIT, x.vid, p, p, depth, c.la > 0, c.act, c.fam, c.cfam, c.scope, false } );
-               ++depth;
-               outcome r = ev( x.kids[ 0 ], p, e, c );
-               --depth;
+               outcome r = visible( x, p, e, c );
                stack.erase( key );
-               if( r.st != OK ) return r;
-               evs[ idx ].e = r.end;
-               outcome a = run_action( x.vid, p, r.end, c );
-               if( a.st != OK ) return a;
                return r;
             }
          }
